@@ -12,6 +12,7 @@ import (
 	"time"
 
 	"github.com/pion/stun/v3"
+	"github.com/pion/stun/v3/verifharness/ref"
 	"github.com/pion/stun/v3/verifharness/sim"
 )
 
@@ -28,6 +29,7 @@ type rigOpts struct {
 	connCloseErr  error
 	realCollector bool // library ticker collector (with the virtual clock unless realClock)
 	realClock     bool
+	collNoWait    bool // the manual collector's Close does not wait for a running tick
 	keepLog       bool
 	useRoles      bool
 	perturb       func(cp, role string) int
@@ -48,6 +50,7 @@ func (o rigOpts) String() string {
 	add(o.agentCloseErr != nil, "agent-close-error")
 	add(o.connCloseErr != nil, "conn-close-error")
 	add(o.realCollector, "ticker-collector")
+	add(o.collNoWait, "collector-close-does-not-wait")
 	add(o.realClock, "system-clock")
 	if len(s) == 0 {
 		return "default"
@@ -63,6 +66,7 @@ type invocation struct {
 	EventTID   [12]byte
 	MsgTID     [12]byte
 	MsgRaw     []byte
+	MsgAttrs   string // attribute list of the Message as the handler saw it
 	Err        string
 }
 
@@ -95,7 +99,9 @@ func (t *tx) returned() bool { return atomic.LoadInt32(&t.Returned) == 1 }
 type fbRec struct {
 	Stamp    int64
 	EventTID [12]byte
+	MsgTID   [12]byte
 	MsgRaw   []byte
+	MsgAttrs string
 	Class    string
 }
 
@@ -152,7 +158,7 @@ func newRig(o rigOpts) (*rig, error) {
 		options = append(options, stun.WithClock(sim.Clock{W: w}))
 	}
 	if !o.realCollector {
-		r.coll = &sim.Collector{W: w}
+		r.coll = &sim.Collector{W: w, NoWaitOnClose: o.collNoWait}
 		options = append(options, stun.WithCollector(r.coll))
 	} else {
 		options = append(options, stun.WithTimeoutRate(time.Millisecond))
@@ -255,6 +261,7 @@ func (r *rig) handlerFor(t *tx) stun.Handler {
 		if e.Message != nil {
 			inv.MsgRaw = append([]byte(nil), e.Message.Raw...)
 			inv.MsgTID = e.Message.TransactionID
+			inv.MsgAttrs = attrListOf(e.Message)
 		}
 		r.w.CP("user.handler")
 		inv.End = r.w.Tick()
@@ -272,11 +279,39 @@ func (r *rig) fallbackHandler(e stun.Event) {
 	rec := fbRec{Stamp: r.w.Tick(), EventTID: e.TransactionID, Class: classifyEvent(e)}
 	if e.Message != nil {
 		rec.MsgRaw = append([]byte(nil), e.Message.Raw...)
+		rec.MsgTID = e.Message.TransactionID
+		rec.MsgAttrs = attrListOf(e.Message)
 	}
 	r.w.CP("fallback.handler")
 	r.mu.Lock()
 	r.fallback = append(r.fallback, rec)
 	r.mu.Unlock()
+}
+
+// attrListOf renders the attribute list a handler sees: (type, length, value) in order.
+func attrListOf(m *stun.Message) string {
+	var sb strings.Builder
+	fmt.Fprintf(&sb, "%d:", len(m.Attributes))
+	for _, a := range m.Attributes {
+		fmt.Fprintf(&sb, "(%x,%d,%x)", uint16(a.Type), a.Length, a.Value)
+	}
+
+	return sb.String()
+}
+
+// refAttrList renders the same for an independent parse of the datagram.
+func refAttrList(d []byte) string {
+	rm, _ := ref.Parse(d)
+	if rm == nil {
+		return "undecodable"
+	}
+	var sb strings.Builder
+	fmt.Fprintf(&sb, "%d:", len(rm.TLVs))
+	for _, t := range rm.TLVs {
+		fmt.Fprintf(&sb, "(%x,%d,%x)", t.Type, t.Len, d[t.Off:t.Off+t.Len])
+	}
+
+	return sb.String()
 }
 
 // request builds a request of exactly size bytes (>= 20) carrying id; only the first 20 bytes need to be a header.
@@ -551,6 +586,9 @@ func (r *rig) judge(o oracleSet, final bool) []rigProblem {
 					if !ok || iv.MsgTID != t.ID {
 						probs = append(probs, rigProblem{"wrong-message", "wrong-message",
 							fmt.Sprintf("%s: handler saw message %x (id %x) which is not a datagram delivered for its id", desc, clip(iv.MsgRaw), iv.MsgTID[:4])})
+					} else if want := refAttrList(iv.MsgRaw); iv.MsgAttrs != want {
+						probs = append(probs, rigProblem{"wrong-decode", "wrong-decode",
+							fmt.Sprintf("%s: the Message handed to the handler lists attributes %.120s, an independent decode of the datagram gives %.120s", desc, iv.MsgAttrs, want)})
 					}
 				}
 			}
@@ -590,6 +628,29 @@ func (r *rig) judge(o oracleSet, final bool) []rigProblem {
 				}
 			}
 		}
+	}
+	if o.identity {
+		r.mu.Lock()
+		for _, f := range r.fallback {
+			if f.MsgRaw == nil {
+				continue
+			}
+			var wireID [12]byte
+			if len(f.MsgRaw) >= 20 {
+				copy(wireID[:], f.MsgRaw[8:20])
+			}
+			if f.EventTID != wireID || f.MsgTID != wireID {
+				probs = append(probs, rigProblem{"fallback-event-id", "fallback-event-id",
+					fmt.Sprintf("fallback handler got event id %x / message id %x for a datagram with id %x", f.EventTID[:4], f.MsgTID[:4], wireID[:4])})
+			} else if want := refAttrList(f.MsgRaw); f.MsgAttrs != want {
+				probs = append(probs, rigProblem{"wrong-decode", "wrong-decode:fallback",
+					fmt.Sprintf("fallback handler saw attributes %.120s, an independent decode of the datagram gives %.120s", f.MsgAttrs, want)})
+			}
+		}
+		r.mu.Unlock()
+	}
+	if atomic.LoadInt32(&r.conn.ReaderGone) > 0 {
+		probs = append(probs, rigProblem{"reader-gone", "reader-gone", "a datagram was not taken by the reader within the watchdog although the client was open"})
 	}
 	if o.closeRules && closeRet > 0 {
 		r.mu.Lock()
